@@ -74,7 +74,18 @@ type pureFunc struct {
 	text   string
 }
 
+type lemmaSpec struct {
+	name    string
+	props   []string
+	bv      bool
+	expr    ast.Expr
+	pkgPath string
+	text    string
+}
+
 type contractSet struct {
+	smtPkg []string // package each smt line belongs to ("" = every query)
+	lemmas []*lemmaSpec
 	funcs  map[string]*funcContract // key pkgPath + "." + name
 	pures  map[string]*pureFunc
 	smt    []string
@@ -338,6 +349,23 @@ func (cs *contractSet) loadFile(path, pkgPath string) error {
 			cs.pures[pf.name] = pf
 		case "smt":
 			cs.smt = append(cs.smt, rest)
+			cs.smtPkg = append(cs.smtPkg, curPkg)
+		case "lemma":
+			// lemma <name> <P1,P2> <int|bv>: <expr>
+			k := strings.Index(rest, ":")
+			if k < 0 {
+				return fail(fmt.Errorf("bad lemma"))
+			}
+			hd := strings.Fields(rest[:k])
+			if len(hd) != 3 {
+				return fail(fmt.Errorf("lemma needs: name props arith"))
+			}
+			e, err := parseSpecExpr(rest[k+1:])
+			if err != nil {
+				return fail(err)
+			}
+			cs.lemmas = append(cs.lemmas, &lemmaSpec{name: hd[0], props: strings.Split(hd[1], ","), bv: hd[2] == "bv", expr: e, pkgPath: curPkg, text: rest[k+1:]})
+			cur = nil
 		default:
 			if cur == nil {
 				return fail(fmt.Errorf("directive %q outside func", word))
